@@ -697,6 +697,22 @@ theorem table_unlocked_rows_are_startup :
     (table.filter (fun r => !r.held)).all (fun r => r.kind == .startup || benignPrechecks.contains r.fn) = true := by
   decide
 
+/-- position of a lock in the committed topological order -/
+def rankOf (l : String) : Nat := lockRank.findIdx (· == l)
+
+set_option maxRecDepth 16000 in
+/-- **table_lock_order_acyclic**: every committed lock-order edge (B taken while A may be held) other than the per-type
+    re-acquisitions (A, A) goes strictly forward in the committed order `lockRank`, and both ends are in it: the
+    lock-order graph the scanner extracted has no cycle, i.e. no two code paths take two of these locks in opposite
+    orders (no lock-order inversion).  The only (A, A) edge is `BitCask.RW` (256 instances, one per shard). -/
+theorem table_lock_order_acyclic :
+    lockOrder.all (fun e => e.1 == e.2 || (rankOf e.1 < rankOf e.2 && rankOf e.2 < lockRank.length)) = true ∧
+    (lockOrder.filter (fun e => e.1 == e.2)).map (·.1) = ["BitCask.RW"] := by decide
+
+/-- **table_no_lock_leak**: the only function that can return still holding a lock it took is the deliberate
+    lock-handing wrapper `TrieDatabase.Lock` -/
+theorem table_no_lock_leak : lockLeaks.map (·.1) = ["TrieDatabase.Lock"] := by decide
+
 /-- **table_no_check_then_act_split**: the scanner found no function that reads a tracked variable in one section of
     its lock and writes it in another one (the premise of `lastsig_monotone` / `rmw_no_lost_update` at function level:
     check and update share a section) -/
